@@ -308,12 +308,12 @@ def rule_r6_step_by(text, fired):
         fired['R6'] = fired.get('R6', 0) + 1
 
 
-ENUMERATE = re.compile(r"\bfor\s+\(\s*(?P<i>\w+)\s*,\s*(?P<c>\w+)\s*\)\s+in\s+(?P<s>[\w.]+)\s*\.\s*iter\(\)\s*\.\s*enumerate\(\)\s*\{")
+ENUMERATE = re.compile(r"\bfor\s+\(\s*(?P<i>\w+)\s*,\s*(?P<c>\w+)\s*\)\s+in\s+(?P<s>(?:\w|\.|\(\))+?)\s*\.\s*iter\(\)\s*(?P<cp>\.\s*copied\(\)\s*)?\.\s*enumerate\(\)\s*\{")
 
 
 def rule_r6_enumerate(text, fired):
     """for (I, C) in S.iter().enumerate() { BODY }  ->  { let mut I: usize = 0; while I < S.len() { let C = &S[I]; BODY I += 1; } }
-    (BODY without `continue`)."""
+    (BODY without `continue`); with `.iter().copied().enumerate()` the element is bound by value (`let C = S[I];`)."""
     while True:
         code = blank_noncode(text)
         m = ENUMERATE.search(code)
@@ -325,7 +325,8 @@ def rule_r6_enumerate(text, fired):
             raise Unsupported('R6 enumerate: loop body contains `continue`')
         i, c, sq = m.group('i'), m.group('c'), m.group('s')
         text = text[:cb] + ' %s += 1; } }' % i + text[cb + 1:]
-        text = splice(text, m.start(), m.end(), '{ let mut %s: usize = 0; while %s < %s.len() { let %s = &%s[%s];' % (i, i, sq, c, sq, i))
+        amp = '' if m.group('cp') else '&'
+        text = splice(text, m.start(), m.end(), '{ let mut %s: usize = 0; while %s < %s.len() { let %s = %s%s[%s];' % (i, i, sq, c, amp, sq, i))
         fired['R6'] = fired.get('R6', 0) + 1
 
 
